@@ -102,6 +102,8 @@ def judge(case, impl_res, ans):
                 return 'SPEC: %s.npy missing although every probe has it' % fn
             if [[int(v) for v in row] for row in ok[fn]['vals']] != m[mk]:
                 return 'SPEC: %s is not block-diagonal with the per-probe matrices as blocks' % fn
+        elif ok[fn] is not None:
+            return 'SPEC: %s.npy written although only some probes have it (its blocks cannot be placed)' % fn
     # params
     if ok['params'].get('n_channels_dat') != sum(p['n_channels_dat'] for p in P) or \
             float(ok['params'].get('sample_rate')) != float(P[0]['sample_rate']):
